@@ -2,6 +2,8 @@ package simkit
 
 import (
 	"fmt"
+	"os"
+	"runtime"
 	"runtime/debug"
 	"sort"
 	"sync"
@@ -64,6 +66,7 @@ type Run struct {
 	prio                 map[int]int // PCT priorities by task id
 	pctChange            []int
 	pctLow               int
+	timedOut             bool // a scheduling loop ended at its simulated-time budget with harness tasks unfinished
 	sutPanic             func(site, value, stack string)
 }
 
@@ -121,6 +124,8 @@ func (r *Run) ProbeN(name string, n int) {
 
 // Checked counts one non-vacuous oracle evaluation.
 func (r *Run) Checked() {
+	progress.Add(1) // oracle work on the root goroutine is progress too (the watchdog is for hangs)
+
 	r.mu.Lock()
 	r.Checks++
 	r.mu.Unlock()
@@ -352,6 +357,30 @@ func (r *Run) Go(name string, fn func()) {
 	}()
 }
 
+// Unfinished is the liveness test of the harnesses: harness tasks that have not finished when a scheduling loop
+// ended. A loop also ends when its step or simulated-time budget is used up, which says nothing about liveness (a
+// big workload, or a clock that ran ahead of it): the run then gets a generous drain - time only moves when nothing
+// is runnable - and only what is still unfinished after that is reported.
+func (r *Run) Unfinished() bool {
+	if r.Live() == 0 {
+		return false
+	}
+
+	if r.Truncated || r.timedOut {
+		r.Probes["budget_exhausted_then_drained"]++
+		r.Truncated, r.timedOut = false, false
+		r.Sched(SchedOpts{MaxSteps: 20000000, MaxSim: r.Now() + 1000*time.Hour})
+	}
+
+	if r.Live() > 0 && os.Getenv("VERIF_DUMP_ON_LIVENESS") != "" { // development aid
+		buf := make([]byte, 8<<20)
+		n := runtime.Stack(buf, true)
+		fmt.Fprintf(os.Stderr, "UNFINISHED: live=%d parked=%d now=%v\n%s\n", r.Live(), len(r.Parked()), r.Now(), buf[:n])
+	}
+
+	return r.Live() > 0
+}
+
 // Live is the number of harness tasks that have not finished.
 func (r *Run) Live() int { return int(r.live.Load()) }
 
@@ -449,6 +478,8 @@ func (r *Run) Sched(o SchedOpts) {
 		}
 
 		if o.MaxSim > 0 && r.Now() >= o.MaxSim {
+			r.timedOut = r.Live() > 0 && !o.KeepGoing
+
 			return
 		}
 
